@@ -63,6 +63,10 @@ var c20Faults = []c20Item{
 type c20Load struct {
 	Items   []c20Item `json:"items"`
 	ViaFile bool      `json:"via_consult,omitempty"`
+	// File/Mode: the text is stored as <File>.pl in the in-memory file system (replacing what was there) and loaded
+	// by consult(<File>), consult('<File>.pl') or a directive :- ensure_loaded(<File>) handed to Exec
+	File string `json:"file,omitempty"`
+	Mode string `json:"mode,omitempty"`
 	// NoFinalStop: the last item's terminating full stop is removed (a truncated text)
 	NoFinalStop bool `json:"no_final_stop,omitempty"`
 	// Tail: an unfinished token or comment appended after the last item, with nothing after it
@@ -265,7 +269,17 @@ func c20Run(c *c20Case) (exp, act, sig string, ok bool) {
 		text := l.text()
 		before := out.Len()
 		var err error
-		if l.ViaFile {
+		if l.File != "" {
+			p.FS = fstest.MapFS{l.File + ".pl": &fstest.MapFile{Data: []byte(text)}}
+			switch l.Mode {
+			case "consult-pl":
+				err = p.QuerySolution("consult('" + l.File + ".pl').").Err()
+			case "ensure_loaded":
+				err = p.Exec(":- ensure_loaded(" + l.File + ").\n")
+			default:
+				err = p.QuerySolution("consult(" + l.File + ").").Err()
+			}
+		} else if l.ViaFile {
 			name := fmt.Sprintf("text%d", i)
 			p.FS = fstest.MapFS{name + ".pl": &fstest.MapFile{Data: []byte(text)}}
 			err = p.QuerySolution("consult(" + name + ").").Err()
@@ -444,6 +458,29 @@ func c20Work(w *h.W) {
 			}
 		}
 	}
+	// (2b) the same file name loaded again after a FAILED load (the repaired text): the failed load must not
+	// leave the file marked as loaded, whichever way it is named
+	modes := []string{"consult", "consult-pl", "ensure_loaded"}
+	for _, t := range texts {
+		if len(t) == 0 || len(t) > 2 {
+			continue
+		}
+		for fi := range c20Faults {
+			for _, m1 := range modes {
+				for _, m2 := range modes {
+					if !w.Mine() {
+						continue
+					}
+					if w.Expired() {
+						return
+					}
+					bad := append(append([]c20Item{}, t...), c20Faults[fi])
+					emit(&c20Case{Loads: []c20Load{{Items: bad, File: "lib", Mode: m1}, {Items: t, File: "lib", Mode: m2}}}, len(t)+1)
+					emit(&c20Case{Loads: []c20Load{{Items: t, Tail: "'abc", File: "lib", Mode: m1}, {Items: t, File: "lib", Mode: m2}, {Items: t, File: "other", Mode: m1}}}, len(t)+2)
+				}
+			}
+		}
+	}
 	// (3) two-load histories: every small text, then every text of <= 2..3 items (redefinition,
 	// multifile accumulation, discontiguity across loads)
 	for _, first := range small {
@@ -474,7 +511,7 @@ func c20Replay(b []byte) (string, string, bool) {
 func init() {
 	h.Register(&h.Check{
 		ID: "C20",
-		Rule: "all program texts that are sequences of <= N items out of 15 (facts and a rule of p/1, q/1, r/1, a grammar rule, dynamic/discontiguous/multifile declarations, initialization goals and directives that OBSERVE the database by writing one character per answer) loaded through Exec and through consult/1 from an in-memory fs.FS; fault enumeration: into every text of <= N-1 items, at every position, each of 6 faults (unbalanced parenthesis, missing operator, unterminated quote, a number as clause, a number as body, stray close) plus the text truncated before its final full stop and the text followed by each of 9 unfinished tokens / comments (quoted atom, string, bracketed comment, 0', a continuation escape, an open argument list, a bare name), each on top of every small earlier load; two-load histories: every small text followed by every text of <= 2..3 items. Distinct = texts.",
+		Rule: "all program texts that are sequences of <= N items out of 15 (facts and a rule of p/1, q/1, r/1, a grammar rule, dynamic/discontiguous/multifile declarations, initialization goals and directives that OBSERVE the database by writing one character per answer) loaded through Exec and through consult/1 from an in-memory fs.FS; fault enumeration: into every text of <= N-1 items, at every position, each of 6 faults (unbalanced parenthesis, missing operator, unterminated quote, a number as clause, a number as body, stray close) plus the text truncated before its final full stop and the text followed by each of 9 unfinished tokens / comments (quoted atom, string, bracketed comment, 0', a continuation escape, an open argument list, a bare name), each on top of every small earlier load; reload after failure: a faulty text stored as lib.pl and loaded by consult(lib), consult('lib.pl') or :- ensure_loaded(lib), then the repaired text under the same name loaded in each of the three ways; two-load histories: every small text followed by every text of <= 2..3 items. Distinct = texts.",
 		Explanation: "state = the reference database after the loads so far (per predicate: clauses in order, dynamic/multifile/discontiguous flags); transition = one load on the real interpreter; the reference loader stages the text, fails as a whole on any fault or on clauses separated without discontiguous/1, commits (replace, or append when both definitions are multifile), then runs initialization goals; compared after every load: error or not, the output of directives (at their position, seeing earlier loads only) and initialization goals (after the commit), and the answers of every predicate of the signature in order",
 		Assumptions: []string{"what a directive sees of its OWN text's preceding clauses is not fixed by the property and is never asserted (the observing directive only looks at r/1, which those texts do not define)", "a failing or throwing directive / initialization goal is not generated"},
 		Work:        c20Work,
